@@ -111,14 +111,56 @@ def unit_exit(eng, fi, c, fr, outcome):
 
 
 def havoc_heap_for_loop(eng, s, fr, spec):
-    """a loop body that writes the heap or makes external calls: forget the mutable heap at the loop head; what the
-    loop needs is carried by its invariants (the object invariant of the unit's objects is re-assumed)"""
+    """a loop body that writes the heap: forget at the loop head what the body may change.  If the body only assigns
+    fields of `self` and calls nothing but logging, struct constructors and container methods on locals, only those
+    fields are forgotten; otherwise the whole mutable heap (and the object invariant of the unit's objects is re-assumed)."""
     if not writes_heap(s.body):
         return
+    fields = simple_self_writes(eng, s.body, fr)
+    if fields is not None:
+        selfv = fr.lookup('self')
+        if isinstance(selfv, V) and selfv.ty[0] == 'ref':
+            H.havoc(eng, 'loop head', only=['%s.%s' % (selfv.ty[1], f) for f in fields])
+            return
     H.havoc(eng, 'loop head')
     for o in eng.st.ghost.get('unit_objs', []):
         if o.t.get_id() in eng.st.ghost.get('inv_objects', {}):
             H.assume_invariant(eng, o)
+
+
+SAFE_LOCAL_METHODS = {'append', 'extend', 'format', 'encode', 'decode', 'get', 'items', 'values', 'keys'}
+
+
+def simple_self_writes(eng, stmts, fr):
+    fields = set()
+    for st_ in stmts:
+        for n in ast.walk(st_):
+            if isinstance(n, (ast.Assign, ast.AugAssign)):
+                tg = n.targets if isinstance(n, ast.Assign) else [n.target]
+                for t in tg:
+                    for t2 in (t.elts if isinstance(t, (ast.Tuple, ast.List)) else [t]):
+                        if isinstance(t2, ast.Attribute):
+                            if isinstance(t2.value, ast.Name) and t2.value.id == 'self':
+                                fields.add(t2.attr)
+                            else:
+                                return None
+                        elif isinstance(t2, ast.Subscript) and isinstance(t2.value, ast.Attribute):
+                            return None
+            elif isinstance(n, ast.Delete):
+                return None
+            elif isinstance(n, ast.Call):
+                if eng.B.is_logging_call(n):
+                    continue
+                f = n.func
+                if isinstance(f, ast.Name) and (f.id in T.STRUCTS or f.id in ('len', 'isinstance', 'min', 'max', 'int')):
+                    continue
+                if isinstance(f, ast.Attribute) and f.attr in SAFE_LOCAL_METHODS and isinstance(f.value, ast.Name) \
+                        and f.value.id != 'self':
+                    continue
+                return None
+            elif isinstance(n, (ast.Yield, ast.YieldFrom)):
+                return None
+    return fields
 
 
 def writes_heap(stmts):
